@@ -25,7 +25,20 @@ def _explore(ctx, qualname, mk, opts=None):
         raise AnalysisError(f"UnitAI cannot interpret {qualname}: {exc}") from exc
     ctx.count('unitai_paths', R.paths)
     ctx.count('unitai_sink_checks', R.sink_checks)
+    for o in R.outcomes:
+        if o[0] == 'return' and _uninterpreted(o[1]):
+            # an answer the interpreter could not follow is not a wrong answer: the analysis is incomplete
+            raise AnalysisError(f"UnitAI cannot interpret {qualname}: returns an uninterpreted value {o[1]!r} (line {o[2]})")
     return fi, R
+
+
+def _uninterpreted(v):
+    from ..unitai import Other as _Other, Tup as _Tup
+    if isinstance(v, _Other):
+        return True
+    if isinstance(v, _Tup):
+        return any(_uninterpreted(x) for x in v)
+    return False
 
 
 def _out_unit(o):
